@@ -8,6 +8,7 @@ import ParryModel.C05.Theorems7
 import ParryModel.C05.Theorems8
 import ParryModel.C05.Theorems9
 import ParryModel.C05.Theorems10
+import ParryModel.C05.Theorems11
 /-!
 # C05 property theorems (umbrella file)
 
@@ -24,5 +25,6 @@ import ParryModel.C05.Theorems10
 * `Theorems8.lean` — fu4: nearest point on a height field (`project_local_point`, `_with_max_dist`), TriMesh query glue.
 * `Theorems9.lean` — fu4: height-field cell triangles are non-degenerate; tetrahedron vertex c / d branches.
 * `Theorems10.lean` — fu4: the edge pseudo-normals of `compute_pseudo_normals` are the sums of the normals of the faces sharing the edge.
+* `Theorems11.lean` — fu4: every triangle of `HeightField::triangles()` is non-degenerate; nearest-point theorem for an actual field.
 `./mkaudit C05` collects the public `theorem`s of every `Theorems*.lean`.
 -/
